@@ -66,6 +66,53 @@ def view_aliasing(ctx, o3):
         torch.set_default_dtype(torch.float32)
 
 
+def linear_part(ctx, o3):
+    """Linear: the same introspection certificate per generated Linear program (machinery of property C08:
+    Model/LinearChecks.lean `introspectionCheck`, Cert/LIN/C19/<name>.lean)"""
+    import linear_family as LF
+    info = LF.prepare(ctx, o3, ["C19"], extra_random=4 if ctx.tier == "quick" else 24)
+    names = [n for n, v in info.items() if v["error"] is None]
+    ok, out = ctx.lake_build(["E3nnVerif.Cert.LIN.C19.All", "E3nnVerif.Cert.LIN.C19.Rand"], timeout=7000)
+    failed = {t.rsplit(".", 1)[1] for t in LF.failed_targets(out) if t.startswith("E3nnVerif.Cert.LIN.C19.")} - {"All", "Rand"} if not ok else set()
+    if not ok and not failed:
+        ctx.obligation("build:Cert.LIN.C19", False, out[-2000:])
+    for n in names:
+        ctx.obligation(f"cert:C19:LIN:{n}", n not in failed, "kernel rejected the certificate" if n in failed else "")
+        ctx.count("family Linear")
+    if ok:
+        tp_check.audit_prefix(ctx, ["E3nnVerif.Cert.LIN.C19.All", "E3nnVerif.Cert.LIN.C19.Rand"], "E3nnVerif.Cert.LIN.C19")
+    g = torch.Generator().manual_seed(ctx.seed + 17)
+    for n in failed:
+        cfg, lin = info[n]["cfg"], info[n]["lin"].to(torch.float64)
+        hit = None
+        try:
+            mask = lin.output_mask.reshape(-1).tolist()
+            fin = getattr(cfg, "f_in", None)
+            x = torch.randn(*( (32, fin) if fin else (32,) ), lin.irreps_in.dim, generator=g, dtype=torch.float64)
+            ws = []
+            if lin.weight_numel and not lin.internal_weights:
+                ws.append(torch.randn(*( () if lin.shared_weights else (32,) ), *lin.weight.shape[-3:-1] if False else (), lin.weight_numel, generator=g, dtype=torch.float64))
+            out_ = lin(x, *ws)
+            flat = out_.reshape(-1, out_.shape[-1])
+            for k, mk in enumerate(mask):
+                nz = flat[:, k].abs().max().item() > 0
+                if mk == 0 and nz:
+                    b = int(flat[:, k].abs().argmax())
+                    hit = dict(kind="mask 0 but component not identically zero", component=k, value=flat[b, k].item())
+                    break
+            total = 0
+            for k, insn, v in lin.weight_views(yield_instruction=True) if lin.internal_weights else []:
+                total += v.numel()
+            if hit is None and lin.internal_weights and total != lin.weight_numel:
+                hit = dict(kind="weight views do not cover weight_numel", views=total, weight_numel=lin.weight_numel)
+        except Exception as e:
+            hit = dict(kind="introspection raises", error=repr(e)[:300])
+        if hit:
+            ctx.violation(f"Linear/introspection/{n}", {"broken": f"Cert.LIN.C19.{n}.introspection_ok", "config": cfg.describe(), **hit}, True)
+        else:
+            ctx.violation(f"cert:C19:LIN:{n}", {"broken": f"Cert.LIN.C19.{n}.introspection_ok", "config": cfg.describe()}, False)
+
+
 def run(ctx):
     from e3nn import o3
     props = "E3nnVerif.Props.C19" if (LEAN / "E3nnVerif" / "Props" / "C19.lean").exists() else None
@@ -125,6 +172,7 @@ def run(ctx):
         if st.get("out_shape", [None, None])[-1] != tp.irreps_out.dim:
             ctx.violation(f"TensorProduct/irreps_out-dim/{n}", {"reported": tp.irreps_out.dim, "actual": st.get("out_shape")}, True)
     view_aliasing(ctx, o3)
+    linear_part(ctx, o3)
     ctx.notes["rule"] = "one introspection certificate per generated program (mask ⇔ zero polynomial, weight slices ⇔ paths, sizes); view-aliasing histories on internal-weight modules"
     ctx.assumptions += [
         "mask[k]=1 ⇒ not identically zero relies on a single-term coefficient q·√r ≠ 0 of a monomial with distinct variables (sound; see Props/C19)",
